@@ -20,7 +20,7 @@ def restCmds (t : FileD) : List Cmd :=
 theorem fileCmds_simple (gen : String) (t : FileD) (h : SimpleFile gen t) :
     fileCmds gen t = [Cmd.line ("// " ++ gen), Cmd.line ""] ++ restCmds t := by
   unfold fileCmds restCmds importCmds
-  rw [leadingCmds_noComments 0 h.loc.noComments, h.opts, h.exts]
+  rw [leadingCmds_noComments 0 h.loc, h.opts, h.exts]
   simp only [sortOpts, Order.isort, List.map_nil, List.flatten_nil, groupExts, List.append_nil, List.nil_append,
     List.append_assoc, List.cons_append, syntaxLine, packageLine]
   rfl
@@ -206,7 +206,7 @@ theorem lex_text (gen : String) (t : FileD) (h : SimpleFile gen t) :
     · intro d hd
       obtain ⟨hb, hm⟩ := h.imports d (sortImports_mem t d hd)
       exact noNL_importLine d hb hm
-    · exact cmds_P_of_noCh (x := '\n') _ (fun s hs => hs) _ (simpleTops_noCh safe_nl t.items true 0 h.items)
+    · exact cmds_P_of_noCh (x := '\n') _ (fun s hs => hs) _ (simpleTops_noCh safe_nl t.items true 0 0 h.items)
   -- every line after the first holds tokens only
   have htok1 : ∀ s ∈ (exec (restCmds t) false).1, TokLine s := by
     apply restCmds_lines t TokLine
@@ -217,7 +217,7 @@ theorem lex_text (gen : String) (t : FileD) (h : SimpleFile gen t) :
       obtain ⟨hb, hm⟩ := h.imports d (sortImports_mem t d hd)
       exact tokLine_importLine d hb hm
     · exact cmds_P_of_noCh (x := '/') _ (fun s hs => tokLine_of_noSlash s hs) _
-        (simpleTops_noCh safe_slash t.items true 0 h.items)
+        (simpleTops_noCh safe_slash t.items true 0 0 h.items)
   have hgen : NoNL ("// " ++ gen).toList := by
     simp only [String.toList_append]
     intro c hc
@@ -309,7 +309,7 @@ theorem parse_print (gen : String) (t : FileD) (h : SimpleFile gen t) :
             (toksOf (elemsCmds 0 t.items true 0 0) true (itemsStart t) ++ [T .eof N])))) := by
     rw [hX]; simp
   -- fuel
-  have hc1 := count_tops t.items h.items 0 true 0 (itemsStart t) true
+  have hc1 := count_tops t.items h.items 0 true 0 0 (itemsStart t) true
   have hc2 := lexLines_imports_length (sortImports t.imports) 6 hI
   have hlenI : (sortImports t.imports).length = t.imports.length := (sortImports_perm t.imports).length_eq
   unfold parseFile
@@ -330,12 +330,12 @@ theorem parse_print (gen : String) (t : FileD) (h : SimpleFile gen t) :
     ⟨len - t.items.length - (sortImports t.imports).length - 2, by omega, by omega⟩
   rw [hF5, topLevel_syntax, topLevel_package _ first rest 4 _ _ hf,
     top_imports (sortImports t.imports) 6 _ _ _ hI,
-    top_tops t.items h.items true 0 (itemsStart t) true (F5 + 1) _ _ rfl hb, topLevel_eof]
+    top_tops t.items h.items true 0 0 (itemsStart t) true (F5 + 1) _ _ rfl hb, topLevel_eof]
   simp only [List.nil_append, rdFile, mkOpts, groupOpts, unlocateShared, List.map_nil, hpkg, if_true]
 
 /-- … and printing what was read reproduces the text. -/
 theorem reprint_simple (gen : String) (t : FileD) (h : SimpleFile gen t) :
     printFile gen (rdFile t) = run (fileCmds gen t) false :=
-  printFile_relaid gen t (rdFile t) (simple_unloc gen t h) (relaid_rdFile gen t h)
+  printFile_relaid gen t (rdFile t) (simple_quiet gen t h) (relaid_rdFile gen t h)
 
 end J5V.Print.Reparse
